@@ -31,6 +31,7 @@ PROPS = {
     "C12": ["contracts.c12_oracles"],
     "C13": ["contracts.c13_logics"],
     "C16": ["contracts.c16_tracking"],
+    "C17": ["contracts.c17_smtlib_solver"],
     "C18": ["contracts.c18_optimizer"],
 }
 
